@@ -10,7 +10,9 @@ Bounds are judged against the step size each operation was constructed with (rec
 the constructor), groups include atoms outside the cell and straddling its faces, cells
 are fully, partially or not periodic.
 One operation object is also used repeatedly on one atoms object and one group of rows while masses, species and
-neighbours are edited in place; masks are also assigned or edited after construction.
+neighbours are edited in place; masks are also assigned or edited after construction (each operation is judged against
+the mask the workload gave that very object; operations built without a mask before and after a sibling's mask was
+set are called again and must still behave as built).
 """
 from __future__ import annotations
 
@@ -32,7 +34,7 @@ ASSUMPTIONS = [
     "symmetry of a proposal with its inverse is tested on i.i.d. draws: displacement d vs -d, rotation vector vs its negative, log of the deformation gradient vs its negative; "
     "sign test |z|>5 or two-sample KS p<1e-6 flags; a flag is re-measured once with 4x the draws and is a violation only if flagged again",
 ]
-REQUIRED = {"calls_on_atoms_edited_in_place": 200, "masks_assigned_after_construction": 300, "calls:Ball": 1000, "calls:Box": 1000, "calls:Sphere": 1000, "calls:Translation": 1000, "calls:Rotation": 500, "calls:TranslationRotation": 500, "calls:CompositeOperation": 300, "calls:IsotropicDeformation": 500, "calls:AnisotropicDeformation": 500, "calls:ShapeDeformation": 500, "symmetry_tests": 20, "uniformity_tests": 2, "masked_calls": 200}
+REQUIRED = {"calls_on_atoms_edited_in_place": 200, "masks_assigned_after_construction": 300, "default_built_masks_edited_in_place": 100, "bystander_calls_after_a_sibling_mask_was_set": 1000, "calls:Ball": 1000, "calls:Box": 1000, "calls:Sphere": 1000, "calls:Translation": 1000, "calls:Rotation": 500, "calls:TranslationRotation": 500, "calls:CompositeOperation": 300, "calls:IsotropicDeformation": 500, "calls:AnisotropicDeformation": 500, "calls:ShapeDeformation": 500, "symmetry_tests": 20, "uniformity_tests": 2, "masked_calls": 200}
 SHARD_TIMEOUT = {"quick": 900, "thorough": 3000}
 
 ORIG: dict = {}
@@ -213,13 +215,30 @@ def post_transrot(rec, op, ctx, out, pre):
             COLLECT.setdefault("rot", []).append((pre["pos"], p1, pre["masses"]))
 
 
+INTENDED_MASK: dict[int, tuple] = {}
+
+
+def intend_mask(op, mask):
+    """The workload's own record of the mask it gave this operation (None: built without one, never edited)."""
+    INTENDED_MASK[id(op)] = (op, None if mask is None else np.array(mask, dtype=bool, copy=True))
+    return op
+
+
+def mask_of(op):
+    """The mask the operation is judged against: what the workload assigned to this object, never what a sibling did."""
+    if id(op) in INTENDED_MASK and INTENDED_MASK[id(op)][0] is op:
+        m = INTENDED_MASK[id(op)][1]
+        return np.ones((3, 3), dtype=bool) if m is None else m
+    return np.asarray(op.mask, dtype=bool)
+
+
 def default_mask(op):
-    m = np.asarray(op.mask)
+    m = mask_of(op)
     return m.shape == (3, 3) and bool(m.all())
 
 
 def wit_def(op, out):
-    return {"operation": type(op).__name__, "max_value": op.max_value, "mask": np.asarray(op.mask).astype(int), "gradient": np.asarray(out)}
+    return {"operation": type(op).__name__, "max_value": op.max_value, "mask": np.asarray(op.mask).astype(int), "mask_given_by_the_workload": mask_of(op).astype(int), "gradient": np.asarray(out)}
 
 
 def post_deform(rec, op, ctx, out, pre):
@@ -228,7 +247,7 @@ def post_deform(rec, op, ctx, out, pre):
     if F.shape != (3, 3) or not np.all(np.isfinite(F)):
         rec.viol(f"C10/{name}/shape", f"deformation gradient has shape {F.shape} / non-finite entries", wit_def(op, out))
         return
-    mask = np.asarray(op.mask, dtype=bool)
+    mask = mask_of(op)
     eye = np.eye(3)
     if not default_mask(op):
         rec.count("masked_calls")
@@ -532,7 +551,7 @@ def run_deform(spec, rec):
     labels = ["xx", "xy", "xz", "yy", "yz", "zz"]
     for mv in (1e-3, 0.05, 0.5, 2.0):
         ctx = make_ctx(rng, 1)
-        op = cls(mv)
+        op = intend_mask(cls(mv), None)
         rec.case(spec["op"], mv)
 
         def draw(m, op=op, ctx=ctx):
@@ -552,10 +571,11 @@ def run_masks(spec, rec):
 
     rng = rng_for("C10m", spec["seed"])
     ctx = make_ctx(rng, 1)
+    bystanders = {c.__name__: intend_mask(c(0.05), None) for c in (oc.IsotropicDeformation, oc.AnisotropicDeformation, oc.ShapeDeformation)}
     for bits in itertools.product([False, True], repeat=9):
         mask = np.array(bits).reshape(3, 3)
         for cls in (oc.IsotropicDeformation, oc.AnisotropicDeformation, oc.ShapeDeformation):
-            how = int(rng.integers(0, 3))
+            how = int(rng.integers(0, 4))
             mv_ = float(rng.choice([1e-3, 0.05, 0.7]))
             if how == 0:
                 op = cls(mv_, mask=mask)
@@ -565,13 +585,24 @@ def run_masks(spec, rec):
                 op = cls(mv_)
                 op.mask = mask.copy()
                 rec.count("masks_assigned_after_construction")
-            else:
+            elif how == 2:
                 op = cls(mv_, mask=np.ones((3, 3), dtype=bool))
                 op.mask[...] = mask  # edited in place
                 rec.count("masks_assigned_after_construction")
+            else:
+                op = cls(mv_)
+                op.mask[...] = mask  # built without a mask, its own mask edited in place
+                rec.count("masks_assigned_after_construction")
+                rec.count("default_built_masks_edited_in_place")
+            intend_mask(op, mask)
             rec.case(cls.__name__, "mask", int(mask.sum()), bool((mask == mask.T).all()))
             for _ in range(spec["n"]):
                 op.calculate(ctx)
+            # bystanders: operations built without a mask before and after this one stay what they were built as
+            late = intend_mask(cls(mv_), None)
+            for b in (bystanders[cls.__name__], late):
+                b.calculate(ctx)
+                rec.count("bystander_calls_after_a_sibling_mask_was_set")
     rec.sample({"masks": "all 512 boolean 3x3 masks", "draws_per_mask_and_operation": spec["n"]}, cap=1)
 
 
